@@ -11,9 +11,12 @@ pool), so whatever an exchange leaves unread is the front of the next response r
 * one caller ⇒ at most one idle connection (`idle`);
 * `attempt`: the request is written (a peer that closed earlier swallows it), `Peek(1)`, `ReadHeaders`,
   `ReadRespBody` with the size limit; every error closes the connection; success closes it when the request or
-  the response carries `Connection: close`, otherwise releases it with the bytes left unread;
+  the response carries `Connection: close`, or when the body of a response that has one was skipped at the
+  application's wish (`resp.SkipBody` set for a request that is not HEAD; /repo 19d2b4c), otherwise releases it
+  with the bytes left unread;
 * `Do`: an attempt on a pooled connection that fails at `Peek(1)` with EOF is `ErrBadPoolConn`; it is retried
-  on a new connection iff the request method is idempotent (`DefaultRetryIf`; its body-stream test is void by then).
+  on a new connection iff the request method is idempotent and its body is no stream (`DefaultRetryIf`, with
+  `bodyIsStream` noted before the first attempt; /repo 3183d35).
 -/
 namespace Hertz.H1.Exchange
 open Hertz Hertz.H1 Hertz.H1.RespRead
@@ -38,11 +41,13 @@ deriving Repr, DecidableEq
 structure Req where
   /-- HEAD (the client sets `resp.SkipBody`) -/
   skipBody : Bool := false
-  /-- GET/HEAD/PUT/DELETE/OPTIONS/TRACE.  (`DefaultRetryIf` also asks `req.IsBodyStream()`, but after the first
-  attempt has written the request the stream is closed and dropped, so that test never refuses.) -/
+  /-- GET/HEAD/PUT/DELETE/OPTIONS/TRACE with a body that is no stream (`Do` notes `bodyIsStream` before the first
+  attempt, whose `req.Write` drops the stream from the request) -/
   retryable : Bool := true
   /-- the request carries `Connection: close` -/
   connClose : Bool := false
+  /-- `resp.SkipBody` as `Do` finds it: set by the application (`skipAfterDo`: the client never leaves its own mark behind) -/
+  appSkip : Bool := false
 deriving Repr, DecidableEq
 
 /-- what the peer does when it has the complete request -/
@@ -67,6 +72,11 @@ def serve (c : Conn) (sv : Srv) : Conn :=
 
 def endOf (c : Conn) : End := if c.peerClosed then .eof else .stall
 
+/-- the body of a response that has one was not read because the application set `resp.SkipBody` for a request
+that is not HEAD: it is still on the wire -/
+def bodyUnread (rq : Req) (hd : RespHead) : Bool :=
+  rq.appSkip && !rq.skipBody && !mustSkipCL hd.status && hd.cl != 0
+
 /-- one pass of `doNonNilReqResp` on connection `c`: the connection to put back (if any), the outcome, and
 whether `Do` may retry (`ErrBadPoolConn`) -/
 def attempt (cfg : Cfg) (rq : Req) (sv : Srv) (c : Conn) (inPool : Bool) : Option Conn × Outcome :=
@@ -77,10 +87,10 @@ def attempt (cfg : Cfg) (rq : Req) (sv : Srv) (c : Conn) (inPool : Bool) : Optio
     if c1.peerClosed then (none, if inPool then .badPool else .err .eof)
     else (none, .err .timeout)
   | b :: s =>
-    match readResponseSkip rq.skipBody cfg.disableNorm cfg.maxBody (endOf c1) (b :: s) with
+    match readResponseSkip (rq.skipBody || rq.appSkip) cfg.disableNorm cfg.maxBody (endOf c1) (b :: s) with
     | .error x => (none, .err x)                       -- closeConn
     | .ok r =>
-      if rq.connClose || r.head.connClose then (none, .ok r)    -- closeConn
+      if rq.connClose || r.head.connClose || bodyUnread rq r.head then (none, .ok r)    -- closeConn
       else (some { c1 with pending := r.rest }, .ok r)            -- releaseConn
 
 /-- `HostClient.Do` for one request -/
@@ -97,6 +107,43 @@ def exchange (cfg : Cfg) (st : St) (rq : Req) (sv : Srv) : St × Outcome :=
         ({ idle := c, dials := st.dials + 1 }, o)
       else ({ idle := none, dials := st.dials }, .badPool)
     | (c, o) => ({ idle := c, dials := st.dials }, o)
+
+/-- `Do` went round a second time (`ErrBadPoolConn` on the pooled connection, request repeatable) -/
+def retried (cfg : Cfg) (st : St) (rq : Req) (sv : Srv) : Bool :=
+  match st.idle with
+  | some c0 => (attempt cfg rq sv c0 true).2 == .badPool && rq.retryable
+  | none => false
+
+/-- `resp.SkipBody` after ONE pass of `doNonNilReqResp` that found the flag as `found`: the pass saves it
+(`customSkipBody`), sets the flag while it works on a HEAD request (`mark`), and a deferred assignment gives the
+saved value back on every way out, the error paths included (/repo 07a471c; before, only the path that returns a
+response did, so the mark of a failed pass was taken for the application's by the next one). -/
+def skipAfterPass (found : Bool) (rq : Req) (_o : Outcome) : Bool :=
+  let customSkipBody := found
+  let _mark := customSkipBody || rq.skipBody      -- the value while the pass runs
+  customSkipBody                                  -- the deferred `resp.SkipBody = customSkipBody`
+
+/-- `resp.SkipBody` after `Do`: the passes one after the other, each finding what the one before left -/
+def skipAfterDo (cfg : Cfg) (st : St) (rq : Req) (sv : Srv) : Bool :=
+  match st.idle with
+  | none => skipAfterPass rq.appSkip rq (attempt cfg rq sv {} false).2
+  | some c0 =>
+    let first := skipAfterPass rq.appSkip rq (attempt cfg rq sv c0 true).2
+    if retried cfg st rq sv then skipAfterPass first rq (attempt cfg rq sv {} false).2 else first
+
+/-- ONE Response object for a whole sequence of calls; `set` = the application sets `resp.SkipBody` before that
+call (it never clears it).  The flag each call finds (`Req.appSkip` of that call). -/
+def foundFlags (cfg : Cfg) : St → Bool → List (Bool × Req × Srv) → List Bool
+  | _, _, [] => []
+  | st, flag, (set, rq, sv) :: t =>
+    let found := set || flag
+    let rq' := { rq with appSkip := found }
+    found :: foundFlags cfg (exchange cfg st rq' sv).1 (skipAfterDo cfg st rq' sv) t
+
+/-- what the application set so far -/
+def setSoFar : Bool → List Bool → List Bool
+  | _, [] => []
+  | flag, set :: t => (set || flag) :: setSoFar (set || flag) t
 
 /-- the whole sequence: outcomes with the number of connections dialled so far -/
 def run (cfg : Cfg) : St → List (Req × Srv) → List (Nat × Outcome)
